@@ -36,6 +36,23 @@ Record lstate := mkLS {
   ls_files : list file;                   (* in order *)
   ls_sub : list (string * file) }.        (* (subchart name, file with the charts/ prefix cut), in order *)
 
+(* the loop over the sorted subchart names: stops at the first error, skips the names
+   [load_sub] answers with None (names starting with '_' or '.') *)
+Fixpoint subs_loop (load_sub : string -> lerr + option chart) (l : list string) : lerr + list chart :=
+  match l with
+  | [] => inr []
+  | n :: t =>
+      match load_sub n with
+      | inl e => inl e
+      | inr None => subs_loop load_sub t
+      | inr (Some sc) =>
+          match subs_loop load_sub t with
+          | inl e => inl e
+          | inr r => inr (sc :: r)
+          end
+      end
+  end.
+
 Section Load.
   (* third-party *)
   Variable md_merge : meta -> string -> option meta.   (* yaml.Unmarshal(data, metadata) onto an existing value *)
@@ -186,20 +203,7 @@ Section Load.
                                  | inl _ => inl LSub
                                  | inr sc => inr (Some sc)
                                  end in
-                        match (fix subs (l : list string) : lerr + list chart :=
-                                 match l with
-                                 | [] => inr []
-                                 | n :: t =>
-                                     match load_sub n with
-                                     | inl e => inl e
-                                     | inr None => subs t
-                                     | inr (Some sc) =>
-                                         match subs t with
-                                         | inl e => inl e
-                                         | inr r => inr (sc :: r)
-                                         end
-                                     end
-                                 end) names with
+                        match subs_loop load_sub names with
                         | inl e => inl e
                         | inr deps =>
                             inr (Chart m (ls_lock st) files (ls_values st) (ls_schema st)
